@@ -97,6 +97,10 @@ fn set_slot_everywhere<S: Setup>(t: &mut Traces<S::E>, s: WitnessId, v: S::E) {
     t.witness_trace = p3_circuit::tables::WitnessTrace::new(w);
 }
 
+fn w0_of<E: Copy>(t: &Traces<E>, s: WitnessId) -> E {
+    *t.witness_trace.get_value(s).unwrap()
+}
+
 fn delta<S: Setup>(rng: &mut SmallRng) -> S::E {
     if rng.random_range(0..2u32) == 0 {
         S::el(&[1])
@@ -114,9 +118,25 @@ fn forgeries<S: Setup>(built: &Built<S>, honest: &Traces<S::E>, publics: &[S::E]
     let real_alu = c.ops.iter().any(|o| matches!(o, Op::Alu { .. }));
     // --- class 1: one ALU cell (value only)
     if real_alu {
+        // every (row, column) whose slot also sits in another column of the same row (x*y + x,
+        // x*x, ...) is forged, plus `per_class` random cells
+        let mut cells: Vec<(usize, usize)> = vec![];
+        for (row, idx) in honest.alu_trace.indices.iter().enumerate() {
+            let kind = honest.alu_trace.op_kind[row];
+            for col in 0..4 {
+                if col_in_relation(kind, col) != Some(true) {
+                    continue;
+                }
+                let twin = (0..4).any(|c2| c2 != col && idx[c2] == idx[col] && col_in_relation(kind, c2) == Some(true));
+                if twin && cells.len() < 6 {
+                    cells.push((row, col));
+                }
+            }
+        }
         for _ in 0..per_class {
-            let row = rng.random_range(0..n_alu);
-            let col = rng.random_range(0..4usize);
+            cells.push((rng.random_range(0..n_alu), rng.random_range(0..4usize)));
+        }
+        for (row, col) in cells {
             let kind = honest.alu_trace.op_kind[row];
             let mut t = honest.clone();
             t.alu_trace.values[row][col] += delta::<S>(rng);
@@ -144,6 +164,83 @@ fn forgeries<S: Setup>(built: &Built<S>, honest: &Traces<S::E>, publics: &[S::E]
                 traces: t,
                 sat,
                 slot: Some(slot),
+            });
+        }
+    }
+    // --- class 1b: lie about ONE operand cell of a row and carry the re-derived result: the
+    // operand cell is changed, the row's `out` is recomputed from the forged operand, and the
+    // new result is written wherever the `out` slot appears (dependants not re-derived). This is
+    // what a floating operand (a cell that is not tied to its slot on the bus) would let through.
+    if real_alu {
+        let mut cells: Vec<(usize, usize)> = vec![];
+        for (row, idx) in honest.alu_trace.indices.iter().enumerate() {
+            let kind = honest.alu_trace.op_kind[row];
+            if !matches!(kind, AluOpKind::Add | AluOpKind::Mul | AluOpKind::MulAdd) {
+                continue;
+            }
+            let ncols = if kind == AluOpKind::MulAdd { 3 } else { 2 };
+            for col in 0..ncols {
+                let twin = (0..ncols).any(|c2| c2 != col && idx[c2] == idx[col]);
+                if twin && cells.len() < 6 {
+                    cells.push((row, col));
+                }
+            }
+        }
+        for _ in 0..per_class {
+            let row = rng.random_range(0..n_alu);
+            let kind = honest.alu_trace.op_kind[row];
+            if matches!(kind, AluOpKind::Add | AluOpKind::Mul | AluOpKind::MulAdd) {
+                let ncols = if kind == AluOpKind::MulAdd { 3 } else { 2 };
+                cells.push((row, rng.random_range(0..ncols)));
+            }
+        }
+        for (row, col) in cells {
+            let kind = honest.alu_trace.op_kind[row];
+            let idx = honest.alu_trace.indices[row];
+            let out_slot = idx[3];
+            // the forged operand must not be the out slot itself, and its slot must be referenced
+            // somewhere else: a slot only this cell refers to (e.g. a private input used once) is
+            // simply *defined* by the cell, so the "lie" is another satisfying assignment
+            if idx[col] == out_slot || refs[idx[col].0 as usize] < 2 {
+                continue;
+            }
+            let mut t = honest.clone();
+            t.alu_trace.values[row][col] += delta::<S>(rng);
+            let v = t.alu_trace.values[row];
+            let new_out = match kind {
+                AluOpKind::Add => v[0] + v[1],
+                AluOpKind::Mul => v[0] * v[1],
+                _ => v[0] * v[1] + v[2],
+            };
+            if new_out == w0_of(honest, out_slot) {
+                continue; // the lie does not change the result (e.g. times zero)
+            }
+            let forged_cell = t.alu_trace.values[row][col];
+            set_slot_everywhere::<S>(&mut t, out_slot, new_out);
+            // set_slot_everywhere may have overwritten the forged operand if it shares the slot
+            t.alu_trace.values[row][col] = forged_cell;
+            // label with O2 on the slot assignment the other tables see
+            let mut w = witness_vec::<S>(honest);
+            w[out_slot.0 as usize] = new_out;
+            let mut pubs = publics.to_vec();
+            for op in &c.ops {
+                if let Op::Public { out, public_pos } = op {
+                    if *out == out_slot {
+                        pubs[*public_pos] = new_out;
+                    }
+                }
+            }
+            let sat = match check_ops::<S>(c, &w, &pubs) {
+                Ok(f) => Some(f.is_empty()),
+                Err(_) => None,
+            };
+            out.push(Forgery {
+                class: "operand-lie-result-carried",
+                site: format!("{}/{}", kind_name(kind), ["a", "b", "c"][col]),
+                desc: format!("alu row {row}: operand col {col} forged, out slot {out_slot} carries the re-derived result"),
+                traces: t,
+                sat,
+                slot: Some(idx[col]),
             });
         }
     }
@@ -373,7 +470,8 @@ fn main() {
         "C04",
         "fault_enumeration",
         &args,
-        "case = (generated program whose honest proof verifies, forgery class, table/position): alu-cell, const-cell, \
+        "case = (generated program whose honest proof verifies, forgery class, table/position): alu-cell, \
+         operand-lie-result-carried (one operand cell forged, the row's result re-derived and carried), const-cell, \
          public-cell, slot-everywhere (value changed on all tables, dependants not re-derived), \
          const-substituted-and-rederived; non-trivial = the forged trace is labelled unsatisfying by the independent \
          op-relation evaluator; distinct by (setup, program, packing, class, site, index)",
